@@ -529,7 +529,7 @@ var UnitDurationNanoseconds = NewUnits(
 		int64(time.Millisecond): NewUnit(
 			"ms",
 			"ms",
-			"milliseconds",
+			"millisecond",
 			"milliseconds",
 		),
 		int64(time.Second): NewUnit(
